@@ -56,6 +56,17 @@ def make_case(r, thorough):
     G = int(r.integers(1, 5 if thorough else 4))
     p, tags = gen.rand_pulse(r, d=d, G=G)
     om, ftags = gen.frequencies(r, p, n=4)
+    # one frequency at a small RELATIVE detuning from the level splitting with the largest rotation angle |dE|*dt
+    # (outside the 1e-7 window of the small-denominator test: the segment integral must be the exact one there;
+    # catches guards with a relative tolerance such as np.isclose)
+    ev = np.asarray(p.eigvals)
+    dE = ev[:, :, None] - ev[:, None, :]
+    ang = np.abs(dE) * np.asarray(p.dt)[:, None, None]
+    if ang.max() > 1e-3:
+        g, m, k = np.unravel_index(int(np.argmax(ang)), ang.shape)
+        rel = float(r.choice([9e-6, -9e-6, 5e-6, -7e-6]))
+        om = np.append(om, -dE[g, m, k] + rel * abs(dE[g, m, k]))
+        ftags = list(ftags) + ['rel%+.0e' % rel]
     tags['freq'] = ','.join(ftags) or 'generic'
     return p, om, tags
 
